@@ -10,7 +10,7 @@ import (
 )
 
 func zzC13Opts() zzStateOpts {
-	o := zzStateOpts{maxPool: 1, maxBatches: 2, maxPerBatch: 1, zeroFees: true, concreteIds: true}
+	o := zzStateOpts{maxPool: 0, maxBatches: 3, maxPerBatch: 1, zeroFees: true, concreteIds: true}
 	if vrt.Thorough() {
 		o = zzStateOpts{maxPool: 1, maxBatches: 3, maxPerBatch: 1, zeroFees: true, concreteIds: true}
 	}
